@@ -116,7 +116,7 @@ def _regex_smt(lang, key, pattern):
             full = rxq.re_to_z3(pattern)
             grp = rxq.re_to_z3(rxq.capture_group(pattern, 1))
         except rxq.RxUnsupported as e:
-            return {"verdict": "ERROR", "detail": "pattern outside the RX subset: %s" % e}
+            return {"verdict": "NOT-ENCODED", "detail": "pattern outside the RX subset: %s" % e}
         L = _lang(lang)
         q = 0
         tot = 0.0
@@ -263,7 +263,7 @@ def _strtoint_smt(lang):
         try:
             r, w, dt = rxq.find_with(L, lambda s: z3.And(z3.Not(_discriminator_z3(s)), z3.Not(z3.InRe(s, digits))), maxlen=10)
         except AssertionError as e:
-            return {"verdict": "ERROR", "detail": str(e)}
+            return {"verdict": "NOT-ENCODED", "detail": str(e)}
         if r == "witness":
             return {"verdict": "REFUTED", "queries": 1, "cpu_s": round(dt, 2), "cex_args": {"tok": w}, "message": "token %r would be handed to int()" % w, "refute_kind": "SMT_SAT"}
         if r == "unknown":
